@@ -2,7 +2,7 @@
    harness observes of the Go run. *)
 From Coq Require Import List ZArith Bool.
 From Verif Require Spec.Visited Spec.Rules Spec.Walk.
-From Verif Require Import Base.Sx Base.GoVal Base.F64 Schema.Ast Schema.Pipeline Schema.Simple Schema.Draft4 Schema.Classes Schema.Helpers Schema.Post.
+From Verif Require Import Base.Sx Base.GoVal Base.F64 Schema.Ast Schema.Pipeline Schema.Simple Schema.Draft4 Schema.Classes Schema.Helpers Schema.Post Schema.AgreementDec.
 Import ListNotations.
 Open Scope Z_scope.
 
@@ -74,7 +74,9 @@ Definition run_schema (s : sx) : sx :=
           L [ of_outcome of_res (sv_validate orc flocq_ops opts dfs fuel sch [SRoot root] [SRoot root] data);
               of_optbool (d4 orc (exact_ops dect) dfs fuel sch data);
               of_optbool (d4 orc flocq_ops dfs fuel sch data);
-              ofZs (dedupZ (visit orc dfs fuel sch data)) ]
+              ofZs (dedupZ (visit orc dfs fuel sch data));
+              (* is the case inside the fragment on which agreement is proved (Schema/Agreement.v, decided by AgreementDec.v)? *)
+              ofBool (clean_b f_finite orc fuel sch && jd_b f_finite (S (goval_depth data)) data) ]
       | _, _, _, _, _, _ => sx_err
       end
   | _ => sx_err
